@@ -230,6 +230,10 @@ class ConcatenatedDrillhole(ConcatenatedObject, Drillhole):
             ind = len(self.depth_)
             label = f"({ind})"
 
+        while f"DEPTH{label}" in self.get_data_list():  # name left by a removed group
+            ind += 1
+            label = f"({ind})"
+
         if property_group is None:
             property_group = f"depth_{ind}"
 
@@ -323,6 +327,11 @@ class ConcatenatedDrillhole(ConcatenatedObject, Drillhole):
             ind = len(
                 list(set(self.from_))
             )  # todo: from_ return the same value x time why?
+            label = f"({ind})"
+
+        data_list = self.get_data_list()
+        while f"FROM{label}" in data_list or f"TO{label}" in data_list:
+            ind += 1
             label = f"({ind})"
 
         if property_group is None:
